@@ -68,6 +68,7 @@ def strategy(tier):
     return st.fixed_dictionaries({
         'n': st.integers(2, 3), 'rng': st.integers(0, 999), 'journal': st.booleans(), 'batch': st.booleans(),
         'cmds': st.lists(cmd, min_size=1, max_size=14),
+        'compact_end': st.booleans(),
     })
 
 
@@ -212,6 +213,42 @@ def run_case(case):
                 viol = ('replicas-differ', 'replica states differ: %r; history %r' % (states, trace))
             elif list(states.values())[0] != model.state():
                 viol = ('state-differs-from-model', 'replicas %r, model %r; history %r' % (list(states.values())[0], model.state(), trace))
+        if viol is None and case.get('compact_end'):
+            # every node compacts its log (snapshot of a state that went through raising commands), then one more command:
+            # the cluster must keep applying, with the same state everywhere
+            esc0 = len(sim.escaped)
+            for n in sim.live():
+                sim.nodes[n].forceLogCompaction()
+            for _ in range(300):
+                sim.calm_round()
+                ls = [n for n in sim.live() if sim.nodes[n]._isLeader()]
+                if len(ls) == 1 and all(sim.nodes[n]._getLeader() is not None for n in sim.live()):
+                    break
+            name = sim.live()[0]
+            cid = sim.next_cid
+            sim.next_cid += 1
+            cbs = []
+            sim.call(name, lambda: sim.nodes[name].append(cid, b'', callback=lambda r, e: cbs.append(e)))
+            for _ in range(150):
+                sim.calm_round()
+                if cbs and len(set(sim.nodes[n].raftLastApplied for n in sim.live())) == 1:
+                    break
+            classes.add('compaction-after-raising-commands')
+            if cbs == [0]:
+                model.apply('append', (cid, b''))
+            states = dict((n, sim.nodes[n].full_state()) for n in sim.live())
+            if sim.escaped[esc0:]:
+                e = sim.escaped[esc0]
+                viol = ('exception-escaped-tick:%s' % e[2], 'after log compaction: %s escaped on %s at %s: %s; history %r' % (e[2], e[1], e[4], e[3], trace))
+            elif cbs and cbs != [0]:
+                classes.add('post-compaction-submission-refused')       # e.g. LEADER_CHANGED after a restart: open outcome, no verdict
+            elif not cbs and any(t[0] in ('break', 'restart') for t in trace):
+                classes.add('post-compaction-submission-unanswered-after-faults')
+            elif not cbs:
+                viol = ('callback-never-fired', 'a command submitted on %s after every node compacted its log got callbacks %r; applied indices %r; history %r' % (
+                    name, cbs, dict((n, sim.nodes[n].raftLastApplied) for n in sim.live()), trace))
+            elif len(set(map(repr, states.values()))) != 1 or list(states.values())[0] != model.state():
+                viol = ('state-differs-from-model', 'after log compaction and one more command: replicas %r, model %r; history %r' % (states, model.state(), trace))
     finally:
         sim.destroy()
         if wd:
